@@ -73,4 +73,112 @@ theorem delete_releases_prefix (k isn : Nat) (str : Bytes) (segs segs' : List Se
 
 end Reasm
 
+section Conv
+open TLX.Lemmas.Pipeline TLX.Lemmas.Capstone TLX.Props.C01Pipeline TLX.Lemmas.CarrierMap
+
+variable (H : Crypto.Prims) (P : Cipher.Prims) (info : Nat → Pipeline.Info)
+
+/-- a released record as far as the session's decisions go: its bytes and its direction -/
+def erase (r : Session.Rec × Bool) : Bytes × Bool := (r.1.raw, r.2)
+
+/-- the raw records of direction `d` among the released records, in order -/
+def dirRaw (d : Bool) (recs : List (Session.Rec × Bool)) : List Bytes := (recs.filter fun r => r.2 == d).map (·.1.raw)
+
+/-- the records a conversation's direction `d` hands to the session are what `Reassembly.run` releases for the TCP segments
+    of that direction -/
+theorem conv_direction_run (c : Pipeline.Conn) (d : Bool) (hne : ∀ p ∈ c.pkts, p.payload ≠ []) :
+    dirRaw d (connRecs info c) = (Reassembly.run (dirSegs info c.server d c.pkts)).map (·.1) := by
+  have h := released_filter info c.server (Reassembly.St.init, Reassembly.St.init) c.pkts d
+  have hi : (if d then (Reassembly.St.init, Reassembly.St.init).2 else (Reassembly.St.init, Reassembly.St.init).1) =
+      Reassembly.St.init := by cases d <;> rfl
+  rw [hi] at h
+  rw [run_eq_outs _ (by
+    intro p hp
+    simp only [dirSegs, List.mem_map, List.mem_filter] at hp
+    obtain ⟨q, ⟨hq, _⟩, rfl⟩ := hp
+    exact hne q hq), ← h]
+  simp only [dirRaw, connRecs, List.map_map, Function.comp_def]
+
+/-- the streams the exported conversation reassembles to: per direction, the concatenation of what the session put into
+    `application_traffic` (`C06.reassemble_build`) -/
+def convStreams (c : Pipeline.Conn) (kl : List Keylog.Key) : Bytes × Bytes :=
+  let recs := (Session.run (Pipeline.ops H P kl) c.opts.metadata Session.St.init (connRecs info c)).traffic.map
+    (toRec fun id => (info id).ts)
+  (Props.C06.dirBytes false recs, Props.C06.dirBytes true recs)
+
+theorem convStreams_spec (c : Pipeline.Conn) (kl : List Keylog.Key) :
+    ∃ fs, Pipeline.connOut H P info c kl = some (fs.map (Pipeline.addressed c.opts c)) ∧
+      TLX.Spec.reassemble fs = some (convStreams H P info c kl) := by
+  have hsome := (connOut_never_raises H P info c kl).2.2
+  rw [connOut_eq, Option.isSome_map] at hsome
+  obtain ⟨fs, hfs⟩ := Option.isSome_iff_exists.mp hsome
+  refine ⟨fs, by rw [connOut_eq, hfs]; rfl, ?_⟩
+  exact Props.C06.reassemble_build _ fs hfs
+
+theorem dirBytes_entry_map (g : List Nat → List Nat) (ts ts' : Nat → Nat) (d : Bool) (tr : List Session.Entry) :
+    Props.C06.dirBytes d ((tr.map (Lemmas.CarrierMap.Sess.entry g)).map (toRec ts')) = Props.C06.dirBytes d (tr.map (toRec ts)) := by
+  induction tr with
+  | nil => rfl
+  | cons e tr ih =>
+    simp only [Props.C06.dirBytes, List.map_cons, List.filter_cons] at ih ⊢
+    have h1 : (toRec ts' (Lemmas.CarrierMap.Sess.entry g e)).fromServer = (toRec ts e).fromServer := rfl
+    have h2 : (toRec ts' (Lemmas.CarrierMap.Sess.entry g e)).bytes = (toRec ts e).bytes := rfl
+    rw [h1]
+    split
+    · simp only [List.flatMap_cons, h2, ih]
+    · exact ih
+
+theorem dirBytes_prefix' (d : Bool) {a b : List TcpOut.Rec} (h : a <+: b) :
+    Props.C06.dirBytes d a <+: Props.C06.dirBytes d b := by
+  obtain ⟨t, rfl⟩ := h
+  simp only [Props.C06.dirBytes, List.filter_append, List.flatMap_append]
+  exact List.prefix_append _ _
+
+/-- the released records with their carrier lists emptied -/
+def bare (recs : List (Session.Rec × Bool)) : List (Session.Rec × Bool) :=
+  recs.map fun x => (Lemmas.CarrierMap.Sess.rec (fun _ => []) x.1, x.2)
+
+theorem bare_of_erase (recs : List (Session.Rec × Bool)) :
+    bare recs = (recs.map erase).map fun x => ((⟨x.1, []⟩ : Session.Rec), x.2) := by
+  simp only [bare, List.map_map, Function.comp_def, erase, Lemmas.CarrierMap.Sess.rec]
+
+/-- **What a conversation exports depends on the bytes and directions of the released records only, monotonically.** Two
+    conversation objects (same `-a` flag) such that the records released for `c'` are, bytes and directions, the first
+    ones released for `c`: per direction the stream `c'` exports is a byte PREFIX of the stream `c` exports. -/
+theorem erased_prefix_exports_prefix (c c' : Pipeline.Conn) (kl : List Keylog.Key)
+    (hm : c'.opts.metadata = c.opts.metadata)
+    (hrel : (connRecs info c').map erase <+: (connRecs info c).map erase) :
+    (convStreams H P info c' kl).1 <+: (convStreams H P info c kl).1 ∧
+    (convStreams H P info c' kl).2 <+: (convStreams H P info c kl).2 := by
+  have key : ∀ d, Props.C06.dirBytes d
+        ((Session.run (Pipeline.ops H P kl) c'.opts.metadata Session.St.init (connRecs info c')).traffic.map
+          (toRec fun id => (info id).ts)) <+:
+      Props.C06.dirBytes d
+        ((Session.run (Pipeline.ops H P kl) c.opts.metadata Session.St.init (connRecs info c)).traffic.map
+          (toRec fun id => (info id).ts)) := by
+    intro d
+    have hn : ∀ (R : List (Session.Rec × Bool)) (m : Bool),
+        Props.C06.dirBytes d ((Session.run (Pipeline.ops H P kl) m Session.St.init R).traffic.map (toRec fun id => (info id).ts)) =
+        Props.C06.dirBytes d ((Session.run (Pipeline.ops H P kl) m Session.St.init (bare R)).traffic.map (toRec fun id => (info id).ts)) := by
+      intro R m
+      have := Lemmas.CarrierMap.Sess.run_nat (fun _ => []) (Pipeline.ops H P kl) (fun _ _ _ => rfl) m Session.St.init R
+      have hinit : Lemmas.CarrierMap.Sess.st (fun _ => []) (Session.St.init : Session.St RecordLayer.Dec) = Session.St.init := rfl
+      rw [hinit] at this
+      unfold bare
+      rw [this]
+      exact (dirBytes_entry_map (fun _ => []) _ _ d _).symm
+    rw [hn (connRecs info c') c'.opts.metadata, hn (connRecs info c) c.opts.metadata, hm]
+    apply dirBytes_prefix'
+    have hb : bare (connRecs info c') <+: bare (connRecs info c) := by
+      rw [bare_of_erase, bare_of_erase]
+      exact List.IsPrefix.map _ hrel
+    obtain ⟨t, ht⟩ := hb
+    have htake : bare (connRecs info c') = (bare (connRecs info c)).take (bare (connRecs info c')).length := by
+      rw [← ht]; simp
+    rw [htake]
+    exact List.IsPrefix.map _ (Props.C08.session_prefix_monotone _ _ _ _ _)
+  exact ⟨key false, key true⟩
+
+end Conv
+
 end TLX.Props.ExportFaults2
